@@ -62,6 +62,9 @@ def generate(seed, tier):
             stmts = [g.stmt() for _ in range(ro.randint(1, 3))]
             if ro.random() < 0.8:
                 stmts.append(g.stmt_deffn())
+                if ro.random() < 0.25:
+                    # the earlier call FAILS after it has stored its lambda (a dead call is a dead call, however it ended)
+                    stmts.append(ro.choice([['name', 'undefined_zz'], ['bin', '/', ['num', '1'], ['num', '0']], ['call', 'push', [['num', '1'], ['num', '2']], 'plain']]))
             prog = ['block', stmts]
         else:
             prog = g.program(n_stmts=ro.randint(1, 6))
@@ -157,7 +160,7 @@ def execute(case, ctx):
     twin, trec, tnames, W0 = _run(case, src, budget=TWIN_BUDGET)
     K = trec.nodes
     if isinstance(twin.exc, RecursionError) or type(twin.exc).__name__ == 'OpsExecutionLimitExceededError' \
-            or K >= TWIN_BUDGET or trec.gate_hit:
+            or K >= TWIN_BUDGET or trec.gate_hit or trec.recursion_seen:
         # runaway recursion: the 'unbounded' twin does not terminate within the harness cap - not a judged case
         ctx.stats['skipped_runaway_program'] += 1
         return
